@@ -207,7 +207,7 @@ func judge(c *Case, h *History) Verdict {
 		}
 		// S6: after Terminate has returned every call reports termination and
 		// the frozen index.
-		if w.TermDoneBefore {
+		if w.TermDoneBefore && !h.Hang {
 			if w.Err != "terminated" {
 				bad("%s started after Terminate returned but reported %q", id, w.Err)
 			}
@@ -222,7 +222,10 @@ func judge(c *Case, h *History) Verdict {
 				slow("%s had to return from t=%v on (stale/future index, completed notification, cancellation or termination) but was still blocked at t=%v", id, time.Duration(ob), time.Duration(w.RescueAt))
 			}
 		}
-		// Classes.
+		// Classes (scripted calls only, not the harness' own closing reads).
+		if w.G < 0 {
+			continue
+		}
 		switch {
 		case w.Prev == 0:
 			cls["wait/immediate-read"] = true
